@@ -31,6 +31,7 @@ def run(ck, fb):
     r19e(ck, fb)
     r19f(ck, fb)
     r19j(ck, fb)
+    r19k(ck, fb)
     r19g(ck, fb)
     r19h(ck, fb)
     r19i(ck, fb)
@@ -401,6 +402,24 @@ def r19j(ck, fb):
                        % (fn, 'is taken from a reserved range directly' if neg.op_tainted(op) else 'does not come from a draw on the key\'s buffer (do_next_id)'),
                        'from do_next_id')
     ck.floor(R, 'NextId answers built in SequenceManager', n, 3)
+
+
+def r19k(ck, fb, R='R19k'):
+    ck.rule(R, 'a reservation that was overtaken is given up: SimpleSequence::set_valid_last_id folds the high-water mark another node announced into '
+               'this node\'s sequence. On every path that raises last_id the rest of the local reservation is dropped (cache_size = 0) - its ids lie '
+               'BELOW the new mark and were reserved by an announcement older than the one just folded in. A former leader that keeps them issues, '
+               'after it is elected again, ids other leaders have used since: [1, 2, 3, 101, 102, 201, 202, 201, ..]')
+    from rn.facts import op_const
+    b = ck.body('rnacos::common::sequence_utils::SimpleSequence::set_valid_last_id', R)
+    if not b:
+        return
+    raises = [bb for (o, f, bb, st) in b.field_writes() if f == 'last_id']
+    drops = {bb for (o, f, bb, st) in b.field_writes() if f == 'cache_size' and st['rv']['k'] == 'use' and (op_const(st['rv']['op']) or {}).get('v') in (0, '0')}
+    ck.floor(R, 'assignments of last_id in set_valid_last_id', len(raises), 1)
+    ok = bool(drops) and all(cfg.must_pass_before_return(b, r0, drops) or any(cfg.dominates_blocks(b, {d0}, r0) for d0 in drops) for r0 in raises)
+    ck.require(ok, R, 'set_valid_last_id:overtaken-reservation-dropped', b.where(raises[0]) if raises else b.where(),
+               'set_valid_last_id raises last_id and keeps cache_size: the node goes on issuing the rest of a reservation that lies below the mark it has just '
+               'accepted - ids that other nodes have issued meanwhile', 'cache_size = 0 wherever last_id is raised')
 
 
 def r19g(ck, fb):
